@@ -6,6 +6,8 @@ import (
 	"math"
 	"slices"
 	"strings"
+	"unicode"
+	"unicode/utf8"
 )
 
 var arrayPrototype *Value = nil
@@ -263,7 +265,7 @@ func getStrPrototype() *Value {
 						return &v, nil
 					}
 
-					lower := NewValue(strings.ToLower(*this.Str))
+					lower := NewValue(mapCase(*this.Str, unicode.ToLower))
 					return &lower, nil
 				},
 			}),
@@ -275,7 +277,7 @@ func getStrPrototype() *Value {
 						return &v, nil
 					}
 
-					upper := NewValue(strings.ToUpper(*this.Str))
+					upper := NewValue(mapCase(*this.Str, unicode.ToUpper))
 					return &upper, nil
 				},
 			}),
@@ -334,4 +336,23 @@ func getNumPrototype() *Value {
 		}
 	}
 	return numPrototype
+}
+
+// mapCase maps the characters of s and copies bytes that are not part of a
+// valid UTF-8 sequence unchanged (strings.ToUpper replaces each by U+FFFD,
+// which changes the length and makes the result differ from s where nothing
+// was mapped)
+func mapCase(s string, mapping func(rune) rune) string {
+	var sb strings.Builder
+	sb.Grow(len(s))
+	for i := 0; i < len(s); {
+		r, size := utf8.DecodeRuneInString(s[i:])
+		if r == utf8.RuneError && size == 1 {
+			sb.WriteByte(s[i])
+		} else {
+			sb.WriteRune(mapping(r))
+		}
+		i += size
+	}
+	return sb.String()
 }
